@@ -201,6 +201,7 @@ func (e *Variable) Assign(newVal reflect.Value, dataContext IDataContext, memory
 			err := e.Variable.ValueNode.SetArrayValueAt(int(e.ArrayMapSelector.Value.Int()), newVal)
 			if err == nil {
 				memory.ResetVariable(e)
+				memory.ResetVariable(e.Variable)
 			}
 
 			return err
@@ -209,6 +210,7 @@ func (e *Variable) Assign(newVal reflect.Value, dataContext IDataContext, memory
 			err := e.Variable.ValueNode.SetMapValueAt(e.ArrayMapSelector.Value, newVal)
 			if err == nil {
 				memory.ResetVariable(e)
+				memory.ResetVariable(e.Variable)
 			}
 
 			return err
